@@ -23,6 +23,11 @@ package wal
 //@    && isuv(s, o5(o, l), uint64(len(l.Extensions))) && eqbytes(s, o6(o, l), l.Extensions, 0, len(l.Extensions))
 //@    && istime(s, o7(o, l), l.AppendedAt)
 
+//@ -- Mono: the field offsets of an encoding are ordered and small (no wrap-around);
+//@ -- proved of Encode's output ([C12.enc-mono]) and assumed by the round-trip clauses.
+//@ predicate Mono(o, l, n) = 0 <= o && o < o1(o, l) && o1(o, l) < o2(o, l) && o2(o, l) < o3(o, l) && o3(o, l) < o4(o, l) && o4(o, l) <= o5(o, l)
+//@    && o5(o, l) < o6(o, l) && o6(o, l) <= o7(o, l) && o7(o, l) < n && n == o7(o, l) + tmlen(l.AppendedAt) && n < 0x40000000000
+
 //@ func (*encoder).varint
 //@   props C12
 //@   requires e.w != nil
@@ -48,11 +53,24 @@ package wal
 //@   ensures[C12.enc-time] old(e.err) == nil && e.err == nil ==> e.w.size == old(e.w.size) + tmlen(t) && istime(e.w.data, old(e.w.size), t)
 //@   ensures e.w.size >= old(e.w.size) && e.w.size <= old(e.w.size) + 16
 
+//@ predicate P1(s, o, l) = isuv(s, o, l.Index)
+//@ predicate P2(s, o, l) = P1(s, o, l) && isuv(s, o1(o, l), l.Term)
+//@ predicate P3(s, o, l) = P2(s, o, l) && isuv(s, o2(o, l), uint64(l.Type))
+//@ predicate P4(s, o, l) = P3(s, o, l) && isuv(s, o3(o, l), uint64(len(l.Data))) && eqbytes(s, o4(o, l), l.Data, 0, len(l.Data))
+//@ predicate P5(s, o, l) = P4(s, o, l) && isuv(s, o5(o, l), uint64(len(l.Extensions))) && eqbytes(s, o6(o, l), l.Extensions, 0, len(l.Extensions))
+
 //@ func (*BinaryCodec).Encode
 //@   props C12
+//@ -- proof cuts: after each step everything written so far is in place
+//@   site after-call((*encoder).varint#1) requires[C12.enc-step1] enc.err == nil ==> P1(w.data, old(w.size), l) && w.size == o1(old(w.size), l)
+//@   site after-call((*encoder).varint#2) requires[C12.enc-step2] enc.err == nil ==> P2(w.data, old(w.size), l) && w.size == o2(old(w.size), l)
+//@   site after-call((*encoder).varint#3) requires[C12.enc-step3] enc.err == nil ==> P3(w.data, old(w.size), l) && w.size == o3(old(w.size), l)
+//@   site after-call((*encoder).bytes#1) requires[C12.enc-step4] enc.err == nil ==> P4(w.data, old(w.size), l) && w.size == o5(old(w.size), l)
+//@   site after-call((*encoder).bytes#2) requires[C12.enc-step5] enc.err == nil ==> P5(w.data, old(w.size), l) && w.size == o7(old(w.size), l)
 //@   requires l != nil && w != nil
 //@   assigns w.size, w.data[w.size:0x7fffffffffffffff]
 //@   ensures[C12.enc-size] result == nil ==> w.size == o7(old(w.size), l) + tmlen(l.AppendedAt)
+//@   ensures[C12.enc-mono] result == nil && old(w.size) + len(l.Data) + len(l.Extensions) < 0x20000000000 ==> Mono(old(w.size), l, w.size)
 //@   ensures[C12.enc-index] result == nil ==> isuv(w.data, old(w.size), l.Index)
 //@   ensures[C12.enc-term] result == nil ==> isuv(w.data, o1(old(w.size), l), l.Term)
 //@   ensures[C12.enc-type] result == nil ==> isuv(w.data, o2(old(w.size), l), uint64(l.Type))
@@ -85,8 +103,10 @@ package wal
 
 //@ func (*decoder).time
 //@   props C11 C12
+//@   ghostparam gt time.Time
 //@   assigns d.err
 //@   ensures old(d.err) != nil ==> d.err == old(d.err)
+//@   ensures[C12.dec-time] old(d.err) == nil && istime(d.buf, 0, gt) && len(d.buf) == tmlen(gt) ==> result == gt && d.err == nil
 
 //@ func (*BinaryCodec).Decode
 //@   props C11 C12
@@ -96,46 +116,17 @@ package wal
 //@   ghostarg (*decoder).varint 3 gv = uint64(g.Type)
 //@   ghostarg (*decoder).bytes 1 gn = uint64(len(g.Data))
 //@   ghostarg (*decoder).bytes 2 gn = uint64(len(g.Extensions))
+//@   ghostarg (*decoder).time 1 gt = g.AppendedAt
 //@   requires l != nil
 //@   assigns l.Index, l.Term, l.Type, l.Data, l.Extensions, l.AppendedAt
 //@   ensures[C12.no-alias] (l.Data == nil || fresh(l.Data)) && (l.Extensions == nil || fresh(l.Extensions))
-//@   ensures[C12.roundtrip-scalars] g != nil && Enc(bs, 0, g) && len(bs) == o7(0, g) + tmlen(g.AppendedAt) ==> l.Index == g.Index && l.Term == g.Term && l.Type == g.Type
-//@   ensures[C12.roundtrip-data] g != nil && Enc(bs, 0, g) && len(bs) == o7(0, g) + tmlen(g.AppendedAt) ==> len(l.Data) == len(g.Data) && eqbytes(l.Data, 0, g.Data, 0, len(g.Data))
-//@   ensures[C12.roundtrip-ext] g != nil && Enc(bs, 0, g) && len(bs) == o7(0, g) + tmlen(g.AppendedAt) ==> len(l.Extensions) == len(g.Extensions) && eqbytes(l.Extensions, 0, g.Extensions, 0, len(g.Extensions))
-//@   ensures[C12.roundtrip-time] g != nil && Enc(bs, 0, g) && len(bs) == o7(0, g) + tmlen(g.AppendedAt) ==> result == nil && l.AppendedAt == g.AppendedAt
-
-// ---------------------------------------------------------------------------
-// options.go / wal.go — configuration, stable store, closed flag
-// ---------------------------------------------------------------------------
-
-//@ func (*WAL).applyDefaultsAndValidate
-//@   props C12
-//@   assigns w.log, w.codec, w.sf, w.metrics, w.metaDB, w.segmentSize
-//@   ensures[C12.reserved-codec-id] old(w.codec) != nil && old(w.codec.codecID) < FirstExternalCodecID ==> result != nil
-//@   ensures result == nil ==> w.codec != nil && w.sf != nil && w.metrics != nil && w.metaDB != nil
-//@   ensures[C12.custom-codec-kept] result == nil && old(w.codec) != nil ==> w.codec == old(w.codec)
-
-//@ func (*WAL).newSegment
-//@   props C12 C13
-//@   requires w.codec != nil
-//@   ensures[C12.codec-recorded] result.Codec == w.codec.codecID
-//@   ensures[C13.newsegment-fields] result.ID == ID && result.BaseIndex == baseIndex && result.MinIndex == baseIndex && result.MaxIndex == 0 && result.IndexStart == 0 && iszero(result.SealTime)
-
-//@ func (*WAL).checkClosed
-//@   props C14
-//@   ensures[C14.closed-flag] (w.closed != 0 ==> result == types.ErrClosed) && (w.closed == 0 ==> result == nil)
-
-//@ func (*WAL).Set
-//@   props C08 C14
-//@   requires w.metrics != nil && w.metaDB != nil
-//@   ensures[C14.set-closed] w.closed != 0 ==> result == types.ErrClosed
-
-//@ func (*WAL).Get
-//@   props C08 C14
-//@   requires w.metrics != nil && w.metaDB != nil
-//@   ensures[C14.get-closed] w.closed != 0 ==> result1 == types.ErrClosed && result0 == nil
-
-//@ func (*WAL).GetUint64
-//@   props C08
-//@   requires w.metrics != nil && w.metaDB != nil
-//@   ensures true
+//@ -- proof cuts: after each decoding step the decoder stands exactly at the next field offset
+//@   site after-call((*decoder).varint#1) requires[C12.rt-step1] g != nil && Enc(bs, 0, g) && Mono(0, g, len(bs)) ==> callresult == g.Index && dec.err == nil && sameslice(dec.buf, bs[o1(0, g):])
+//@   site after-call((*decoder).varint#2) requires[C12.rt-step2] g != nil && Enc(bs, 0, g) && Mono(0, g, len(bs)) ==> callresult == g.Term && dec.err == nil && sameslice(dec.buf, bs[o2(0, g):])
+//@   site after-call((*decoder).varint#3) requires[C12.rt-step3] g != nil && Enc(bs, 0, g) && Mono(0, g, len(bs)) ==> callresult == uint64(g.Type) && dec.err == nil && sameslice(dec.buf, bs[o3(0, g):])
+//@   site after-call((*decoder).bytes#1) requires[C12.rt-step4] g != nil && Enc(bs, 0, g) && Mono(0, g, len(bs)) ==> len(callresult) == len(g.Data) && eqbytes(callresult, 0, g.Data, 0, len(g.Data)) && dec.err == nil && sameslice(dec.buf, bs[o5(0, g):])
+//@   site after-call((*decoder).bytes#2) requires[C12.rt-step5] g != nil && Enc(bs, 0, g) && Mono(0, g, len(bs)) ==> len(callresult) == len(g.Extensions) && eqbytes(callresult, 0, g.Extensions, 0, len(g.Extensions)) && dec.err == nil && sameslice(dec.buf, bs[o7(0, g):])
+//@   ensures[C12.roundtrip-scalars] g != nil && Enc(bs, 0, g) && Mono(0, g, len(bs)) ==> l.Index == g.Index && l.Term == g.Term && l.Type == g.Type
+//@   ensures[C12.roundtrip-data] g != nil && Enc(bs, 0, g) && Mono(0, g, len(bs)) ==> len(l.Data) == len(g.Data) && eqbytes(l.Data, 0, g.Data, 0, len(g.Data))
+//@   ensures[C12.roundtrip-ext] g != nil && Enc(bs, 0, g) && Mono(0, g, len(bs)) ==> len(l.Extensions) == len(g.Extensions) && eqbytes(l.Extensions, 0, g.Extensions, 0, len(g.Extensions))
+//@   ensures[C12.roundtrip-time] g != nil && Enc(bs, 0, g) && Mono(0, g, len(bs)) ==> result == nil && l.AppendedAt == g.AppendedAt
